@@ -698,6 +698,7 @@ def method_source(blocks, header, fn):
 def translate(repo):
     src = open(os.path.join(repo, 'src', 'read.rs'), encoding='utf-8').read()
     src = '\n'.join('' if l.lstrip().startswith('//') else l for l in src.split('\n'))
+    src = re.sub(r'/\*.*?\*/', ' ', src, flags=re.S)            # block comments (trailing `//` comments go in fn_source / methods_in)
     broken, bodies = [], {}
     try:
         blocks = impl_blocks(src)
